@@ -29,6 +29,7 @@ ASSUMPTIONS = [
     "one small file (61 bytes, 2-of-4, single segment); server kinds as listed",
     "a share is 'correct' when its data region equals the reference encoding of the same plaintext/parameters (encoding is deterministic under a convergence secret)",
     "calls on one connection are FIFO",
+    "an upload that fails with an unhappiness error although a happy layout was reachable is counted, not judged (the statement constrains reported successes and the manner of failing, it promises no success); seen on the unchanged tree with 5 servers of which some are full",
 ]
 K, N, SIZE, SEG = 2, 4, 61, 61
 KINDS = ["normal", "full", "readonly", "has0", "has01", "hasall"]
@@ -133,8 +134,12 @@ def execute(case, prefix, seed):
                     for sh in range(N):
                         pairs.add((sv, sh))
                 if writable and ref_matching(pairs) >= case["happy"]:
+                    # The statement only says when an upload may REPORT SUCCESS and how it must fail; it does not promise
+                    # success whenever a happy layout exists.  Observed on the unchanged tree with 5 servers of which
+                    # some are full (the selector plans a share for a full server and gives up after the refusal):
+                    # counted, not judged.
                     obs["note"] = "unhappy-although-reachable"
-                    viol.append(("unhappy-although-happy-layout-reachable", "upload failed (%s) on honest servers although kinds=%r allow happiness %d >= %d" % (b[0][1].getErrorMessage()[:150], kinds, ref_matching(pairs), case["happy"])))
+                    obs["outcome"] = obs["outcome"] + ":although-happy-layout-reachable"
         obs["events"] = len(g.sched.log)
         for e in boot.R.take_errors():
             viol.append(("exception-in-timer:" + type(e.value).__name__, e.getTraceback()[-400:]))
